@@ -1,3 +1,4 @@
+import NucsProofs.Engine.ShavingTerm
 import NucsProofs.Engine.Optimum
 import NucsProofs.Engine.DfsShaving
 /-!
